@@ -1,32 +1,53 @@
 import CanVerif.Lemmas.ParseInv
-/-! The panic outcome of `parseDbc` is unreachable. -/
+/-! The panic outcome of `parseDbc` is unreachable, and parse errors are positioned at or after the first token of the
+definition during which they are raised. -/
 open Std.Do
 namespace CanVerif
 
-theorem parseStep_inv (defFuel : Nat) (defs : Array Def) (st : PS) (hi : PSInv st) :
+/-- with a look-ahead token in place, the bound `lb` is the start of that token -/
+theorem lb_of_la (st : PS) (hi : PSInv st) (hl : st.hasLA = true) : lb st = st.la.pos.offset := by
+  unfold lb
+  have := (hi.2 hl).2
+  simp only [hl, if_true]
+  omega
+
+theorem parseStep_inv (defFuel : Nat) (defs : Array Def) (st : PS) (n : Nat) (hi : PSInv st) (hn : n ≤ lb st) :
     (∀ s, parseStep defFuel defs st ≠ .error (.panic s)) ∧
-    ∀ d st', parseStep defFuel defs st = .ok (some (d, st')) → PSInv st' := by
-  have p := run_of_triple _ _ _ _ peekToken_ispec st hi
+    (∀ p r, parseStep defFuel defs st = .error (.parse p r) → n ≤ p.offset) ∧
+    (∀ d st', parseStep defFuel defs st = .ok (some (d, st')) → PSInv st' ∧ n ≤ lb st' ∧ n ≤ d.pos.offset) ∧
+    (∀ t st1 p r, peekToken.run st = .ok (t, st1) → parseStep defFuel defs st = .error (.parse p r) →
+      t.pos.offset ≤ p.offset) := by
+  have p := run_of_triple _ _ _ _ (peekToken_ispec n) st ⟨hi, hn⟩
   unfold parseStep
   cases h1 : peekToken.run st with
   | error e =>
     have := p.2 e h1
-    exact ⟨fun s h => (by cases h; exact this s rfl), fun d st' h => (by cases h)⟩
+    exact ⟨fun s h => (by cases h; exact this.1 s rfl), fun p r h => (by cases h; exact this.2 p r rfl),
+      fun d st' h => (by cases h), fun t st1 p r h => (by cases h)⟩
   | ok r =>
     obtain ⟨t, st1⟩ := r
     have q := p.1 t st1 h1
+    -- peekToken leaves the token as look-ahead
+    have hla : st1.hasLA = true ∧ st1.la = t := q.2.2.2.2
     simp only
     split
-    · exact ⟨fun s h => (by cases h), fun d st' h => (by cases h)⟩
-    · have pd := run_of_triple _ _ _ _ (parseDef_ispec defs defFuel) st1 q.1
+    · exact ⟨fun s h => (by cases h), fun p r h => (by cases h), fun d st' h => (by cases h),
+        fun t' st1' p r _ h => (by cases h)⟩
+    · have hlb : lb st1 = t.pos.offset := by rw [lb_of_la st1 q.1 hla.1, hla.2]
+      have pd := run_of_triple _ _ _ _ (parseDef_ispec defs defFuel n) st1 ⟨q.1, q.2.1⟩
+      have pd2 := run_of_triple _ _ _ _ (parseDef_ispec defs defFuel t.pos.offset) st1 ⟨q.1, by omega⟩
       cases h2 : (parseDef defs defFuel).run st1 with
       | error e =>
-        have := pd.2 e h2
-        exact ⟨fun s h => (by cases h; exact this s rfl), fun d st' h => (by cases h)⟩
+        have e1 := pd.2 e h2
+        have e2 := pd2.2 e h2
+        refine ⟨fun s h => (by cases h; exact e1.1 s rfl), fun p r h => (by cases h; exact e1.2 p r rfl),
+          fun d st' h => (by cases h), fun t' st1' p r ht h => ?_⟩
+        cases ht; cases h
+        exact e2.2 p r rfl
       | ok r2 =>
         obtain ⟨d, st2⟩ := r2
         have := pd.1 d st2 h2
-        refine ⟨fun s h => (by cases h), fun d' st' h => ?_⟩
+        refine ⟨fun s h => (by cases h), fun p r h => (by cases h), fun d' st' h => ?_, fun t' st1' p r _ h => (by cases h)⟩
         cases h
         exact this
 
@@ -35,7 +56,7 @@ theorem parseAll_noPanic (defFuel fuel : Nat) (defs : Array Def) (st : PS) (hi :
   induction fuel generalizing defs st with
   | zero => simp [parseAll]
   | succ k ih =>
-    obtain ⟨a, b⟩ := parseStep_inv defFuel defs st hi
+    obtain ⟨a, _, b, _⟩ := parseStep_inv defFuel defs st 0 hi (Nat.zero_le _)
     unfold parseAll
     cases h : parseStep defFuel defs st with
     | error e =>
@@ -49,10 +70,52 @@ theorem parseAll_noPanic (defFuel fuel : Nat) (defs : Array Def) (st : PS) (hi :
       | some p =>
         obtain ⟨d, st'⟩ := p
         simp only
-        exact ih _ _ (b d st' h)
+        exact ih _ _ (b d st' h).1
 
 theorem parseDbc_noPanic (data : List UInt8) (s : String) : parseDbc data ≠ .panic s := by
   unfold parseDbc
   exact parseAll_noPanic _ _ _ _ ⟨StInv_init data, fun h => (by cases h)⟩ s
+
+/-- the state in which the definition loop fails: reached from `st` by successful steps -/
+inductive StepsTo (defFuel : Nat) : Array Def → PS → Array Def → PS → Prop
+  | refl (defs st) : StepsTo defFuel defs st defs st
+  | step (defs st d st' defs2 st2) : parseStep defFuel defs st = .ok (some (d, st')) →
+      StepsTo defFuel (defs.push d) st' defs2 st2 → StepsTo defFuel defs st defs2 st2
+
+theorem stepsTo_inv (defFuel : Nat) (defs defs2 : Array Def) (st st2 : PS) (h : StepsTo defFuel defs st defs2 st2)
+    (hi : PSInv st) : PSInv st2 := by
+  induction h with
+  | refl => exact hi
+  | step defs st d st' defs2 st2 hs _ ih => exact ih ((parseStep_inv defFuel defs st 0 hi (Nat.zero_le _)).2.2.1 d st' hs).1
+
+/-- a failing `parseAll` fails in one particular step, after successful ones; the definitions it reports are the ones
+accepted by those -/
+theorem parseAll_error_step (defFuel fuel : Nat) (defs : Array Def) (st : PS) (p : Pos) (r : String) (ds : List Def)
+    (h : parseAll defFuel fuel defs st = .error p r ds) :
+    ∃ defs2 st2, StepsTo defFuel defs st defs2 st2 ∧ parseStep defFuel defs2 st2 = .error (.parse p r) ∧
+      ds = defs2.toList := by
+  induction fuel generalizing defs st with
+  | zero => simp [parseAll] at h
+  | succ k ih =>
+    unfold parseAll at h
+    cases hs : parseStep defFuel defs st with
+    | error e =>
+      rw [hs] at h
+      cases e with
+      | parse p' r' =>
+        simp only [ParseResult.error.injEq] at h
+        obtain ⟨rfl, rfl, rfl⟩ := h
+        exact ⟨defs, st, .refl _ _, hs, rfl⟩
+      | panic s => simp at h
+      | fuel => simp at h
+    | ok o =>
+      rw [hs] at h
+      cases o with
+      | none => simp at h
+      | some q =>
+        obtain ⟨d, st'⟩ := q
+        simp only at h
+        obtain ⟨defs2, st2, a, b, c⟩ := ih _ _ h
+        exact ⟨defs2, st2, .step _ _ _ _ _ _ hs a, b, c⟩
 
 end CanVerif
